@@ -159,7 +159,7 @@ func init() {
 			"one representative operator per class inside composite programs (and/or/not/if/>/=/+// and custom p,q); the individual operators are covered by C18"},
 		WallBudget: func(tier string) time.Duration {
 			if tier == "thorough" {
-				return 90 * time.Minute
+				return 40 * time.Minute
 			}
 			return 8 * time.Minute
 		},
@@ -268,7 +268,7 @@ func init() {
 			"every variable is bound (property quantifier); failures come from operators and wrong-typed values"},
 		WallBudget: func(tier string) time.Duration {
 			if tier == "thorough" {
-				return 120 * time.Minute
+				return 40 * time.Minute
 			}
 			return 10 * time.Minute
 		},
@@ -322,7 +322,7 @@ func shapeBounds(extra map[string]interface{}) func(tier string) map[string]inte
 
 func shapeBudget(tier string) time.Duration {
 	if tier == "thorough" {
-		return 120 * time.Minute
+		return 40 * time.Minute
 	}
 	return 10 * time.Minute
 }
